@@ -1,5 +1,9 @@
 // C17 public-API harness: tapkee::embed(tDistributedStochasticNeighborEmbedding) on small inputs.
-//   api  N= D= X= perp= theta= dim=    -> rows= cols= Y=<N*dim>   |  throw <type>
+//   api  N= D= X= perp= theta= dim= [ids=<N ids> M=<id space>]   -> rows= cols= Y=<N*dim> [foreign=<n>]  |  throw <type>
+// With ids= the range handed to embedRange is NOT the identity: the k-th element of the range is the sample id ids[k]
+// (< M), the features callback is defined on ids (row k of X is the feature vector of id ids[k]); every other id of the id
+// space is a decoy with a far-away feature vector, and every callback evaluation on an id outside the range is counted
+// (`foreign=<n>`, printed only when n > 0): a library that passes the POSITION in the range instead of the ELEMENT is seen.
 #include <cmath>
 #include <memory>
 #include <vector>
@@ -26,16 +30,27 @@ static double vh_gauss()
 
 struct feature_cb
 {
-    const std::vector<double>* X;
+    const std::vector<double>* table; // M * D, indexed by sample id
+    const std::vector<char>* in_range; // M
     int D;
+    long* foreign;
     inline tapkee::IndexType dimension() const
     {
         return D;
     }
-    inline void vector(int i, tapkee::DenseVector& v) const
+    inline void vector(tapkee::IndexType i, tapkee::DenseVector& v) const
     {
+        if (i < 0 || (size_t)i >= in_range->size())
+        {
+            ++*foreign; // not even an id of the id space
+            for (int d = 0; d < D; d++)
+                v(d) = 0.0;
+            return;
+        }
+        if (!(*in_range)[(size_t)i])
+            ++*foreign;
         for (int d = 0; d < D; d++)
-            v(d) = (*X)[(size_t)i * D + d];
+            v(d) = (*table)[(size_t)i * D + d];
     }
 };
 
@@ -58,9 +73,30 @@ int main()
 {
             std::vector<double> X = vh::parse_nums(f["X"]);
             std::vector<tapkee::IndexType> idx(N);
-            for (int i = 0; i < N; i++)
-                idx[i] = i;
-            feature_cb fcb{&X, D};
+            int M = N;
+            if (f.count("ids"))
+            {
+                std::vector<double> ids = vh::parse_nums(f["ids"]);
+                M = std::stoi(f["M"]);
+                for (int i = 0; i < N; i++)
+                    idx[i] = (tapkee::IndexType)ids[(size_t)i];
+            }
+            else
+                for (int i = 0; i < N; i++)
+                    idx[i] = i;
+            std::vector<double> table((size_t)M * D);
+            std::vector<char> in_range((size_t)M, 0);
+            for (int i = 0; i < M; i++) // decoys: far away from every sample (samples lie within [-10, 50])
+                for (int d = 0; d < D; d++)
+                    table[(size_t)i * D + d] = 100000.0 + 37.0 * i + d;
+            for (int k = 0; k < N; k++)
+            {
+                in_range[(size_t)idx[k]] = 1;
+                for (int d = 0; d < D; d++)
+                    table[(size_t)idx[k] * D + d] = X[(size_t)k * D + d];
+            }
+            long foreign = 0;
+            feature_cb fcb{&table, &in_range, D, &foreign};
             int dim = std::stoi(f["dim"]);
             vh_gs = 88172645463325252ULL;
             try
@@ -79,6 +115,8 @@ int main()
             {
                 out << "throw " << typeid(e).name();
             }
+            if (foreign > 0)
+                out << " foreign=" << foreign;
         }
         else
             out << "bad-topic";
